@@ -36,6 +36,30 @@ func tameProfile() logical.Profile {
 		Tables: true, MaxRows: 3, MaxCols: 3, Styles: 1}
 }
 
+// genWithStructure draws tame documents until one has a heading, a list and a table
+// (so that styles, numbering and table code are all exercised by the sample).
+func genWithStructure(r *rand.Rand, tk *fw.Tokens) *logical.Doc {
+	var d *logical.Doc
+	for try := 0; try < 20; try++ {
+		d = logical.Gen(r, tk, tameProfile())
+		h, l, t := false, false, false
+		for _, b := range d.Blocks {
+			switch b.Kind {
+			case logical.BHeading:
+				h = true
+			case logical.BList:
+				l = true
+			case logical.BTable:
+				t = true
+			}
+		}
+		if h && l && t {
+			break
+		}
+	}
+	return d
+}
+
 // Make generates a sample of the given format.
 func Make(format string, r *rand.Rand) Sample {
 	tk := fw.NewTokens(r)
@@ -51,13 +75,13 @@ func Make(format string, r *rand.Rand) Sample {
 		}
 		s.Desc = fmt.Sprintf("pdf xref=%v filter=%s", lay.XRef, lay.Filter)
 	case "docx":
-		d := logical.Gen(r, tk, tameProfile())
-		s.Data = ooxml.WriteDocx(d, ooxml.DocxOptions{})
-		s.Desc = "docx from logical.Gen (tame profile)"
+		d := genWithStructure(r, tk)
+		s.Data = ooxml.WriteDocx(d, ooxml.DocxOptions{BodyStyle: "BodyText"}) // every paragraph names a style
+		s.Desc = "docx from logical.Gen (tame profile, styled paragraphs)"
 	case "odt":
-		d := logical.Gen(r, tk, tameProfile())
-		s.Data = odf.WriteODT(d, odf.Options{})
-		s.Desc = "odt from logical.Gen (tame profile)"
+		d := genWithStructure(r, tk)
+		s.Data = odf.WriteODT(d, odf.Options{BodyStyle: "Text_20_body"})
+		s.Desc = "odt from logical.Gen (tame profile, styled paragraphs)"
 	case "xlsx":
 		wb := &ooxml.XWorkbook{Styles: true, DocProps: true, Title: "sample"}
 		for i := 0; i < 1+r.Intn(3); i++ {
